@@ -138,6 +138,103 @@ def run(ck, ctx):
     alts = {}
     ck.guard(lambda: alts.update(r092()), "R09.2")
 
+    # ---------------------------------------------------------------- R09.3 (history) a second event
+    def r093h():
+        """The cloud top of an event depends on ITS location only: the model is asked a second time, in the same state,
+        for another location.  Whatever the second answer takes from the first call (a memo) must be selected by a
+        test that the two locations are equal - a key that is coarser than the location (rounded, truncated, one
+        coordinate only) hands the first event's cloud top to a different event."""
+        J = ctx.interp()
+        cfg2 = J.cfg_root()
+        st2 = J.new_state()
+        obj2 = J.construct(J.cls(CLOUD_MOD, "CloudTopHeight"), [cfg2], {}, st2)
+        a1, o1 = J.input("lat_first", kind="float"), J.input("long_first", kind="float")
+        a2, o2 = J.input("lat_second", kind="float"), J.input("long_second", kind="float")
+        J.run_method(obj2, "__call__", [a1, o1], st=st2)
+        r2 = J.run_method(obj2, "__call__", [a2, o2], st=st2)
+        if r2.value is None:
+            raise AnalysisError("CloudTopHeight.__call__ has no normal exit on a repeated call")
+        gj = J.g
+
+        def sel(v, variant):
+            # same reading of the dispatch as select(), on this interpreter
+            from ..facets.poly import eval_formula
+            pr_ = Pred(J)
+            guard = 0
+            while v is not None and v.op == "Phi" and guard < 16:
+                guard += 1
+                f = pr_.formula(v.args[0])
+                env = {}
+                for key in pr_.atoms_of(f):
+                    kind, x_, _b = pr_.atoms[key]
+                    if x_ is None:
+                        continue
+                    if x_.op == "IsInstance":
+                        ts = x_.args[1].args if x_.args[1].op == "Tuple" else (x_.args[1],)
+                        if all(t.op == "Class" for t in ts):
+                            env[key] = any(t.attr.qualname == variant for t in ts)
+                    elif x_.op == "Compare" and x_.attr in ("Is", "IsNot") and \
+                            any(y.op == "Const" and y.attr is None for y in x_.args):
+                        env[key] = x_.attr == "IsNot"
+                if not env:
+                    return v
+                t = eval_formula(f, env)
+                if t is None:
+                    return None
+                v = v.args[1] if t else v.args[2]
+            return v
+        mv2 = sel(J.snapshot(r2.value, st2), VARIANTS[2])
+        if mv2 is None:
+            raise AnalysisError("map model value of the repeated call not identified")
+        first = {a1.id, o1.id}
+
+        def uses_first(n):
+            return any(x.id in first for x in walk([n]))
+
+        def exact_key_equality(c):
+            """c is (k2 == k1) with k the location itself: tuples (or single values) whose components are the two
+            coordinates, through value-preserving casts only"""
+            if c.op != "Compare" or c.attr != "Eq":
+                return False
+
+            def comps(k):
+                parts = list(k.args) if k.op == "Tuple" else [k]
+                out = []
+                for p_ in parts:
+                    for _ in range(3):
+                        if p_.op == "Call" and len(p_.args) == 2 and p_.args[0].op == "Ext" and p_.args[0].attr in (
+                                "builtins.float", "numpy.float64", "numpy.asarray", "numpy.double"):
+                            p_ = p_.args[1]
+                        else:
+                            break
+                    out.append(p_)
+                return out
+            l, r_ = comps(c.args[0]), comps(c.args[1])
+            ids = lambda xs: {x.id for x in xs}
+            return (ids(l) == {a2.id, o2.id} and ids(r_) == {a1.id, o1.id}) or \
+                (ids(r_) == {a2.id, o2.id} and ids(l) == {a1.id, o1.id})
+        bad = []
+
+        def rec(n, guards):
+            if n.op == "Phi":
+                rec(n.args[1], guards + [(n.args[0], True)])
+                rec(n.args[2], guards + [(n.args[0], False)])
+            elif n.op != "Unknown" and uses_first(n):
+                if not any(pol and exact_key_equality(c) for c, pol in guards):
+                    bad.append((n, guards))
+        rec(mv2, [])
+        for n, guards in bad[:2]:
+            ck.ob("R09.3", "a second event's cloud top takes nothing from an earlier event at another location", False, n,
+                  "altitude_from_pressure_map_v0.f",
+                  "the value computed for the first location is returned under: " +
+                  ("; ".join(gj.show(c, 3)[:120] + (" (true)" if p else " (false)") for c, p in guards[-2:]) or
+                   "no condition") + " - the test does not establish that the two locations are equal",
+                  construct="altitude_from_pressure_map_v0.f: result of an earlier event reused for another location")
+        ck.ob("R09.3", "the map cloud top of an event is a function of that event's location only (also when another "
+              "event was looked up before)", not bad, mv2, "altitude_from_pressure_map_v0.f",
+              f"{len(bad)} alternative(s) reuse the first event's value without an exact location test")
+    ck.guard(r093h, "R09.3 (history)")
+
     # ---------------------------------------------------------------- R09.3 / R09.4 / R09.5 map model
     def r093():
         mv = alts.get(None)
